@@ -124,3 +124,47 @@ mod kani_counter {
         kani::cover!(delta > 0 && t0 != t1);
     }
 }
+
+#[cfg(kani)]
+impl CallCounter {
+    /// Harness constructor: an arbitrary pre-state (inductive-step style).
+    pub(crate) fn kani_with(actual: usize, minimum: usize, tag: u8) -> Self {
+        CallCounter {
+            actual_count: AtomicUsize::new(actual),
+            expectation: CallCountExpectation::new(
+                minimum,
+                match tag {
+                    0 => Exactness::Exact,
+                    1 => Exactness::AtLeast,
+                    _ => Exactness::AtLeastPlusOne,
+                },
+            ),
+        }
+    }
+    pub(crate) fn kani_actual(&self) -> usize {
+        self.actual_count.load(core::sync::atomic::Ordering::SeqCst)
+    }
+    pub(crate) fn kani_expectation(&self) -> (usize, u8) {
+        (
+            self.expectation.minimum,
+            match self.expectation.exactness {
+                Exactness::Exact => 0,
+                Exactness::AtLeast => 1,
+                Exactness::AtLeastPlusOne => 2,
+            },
+        )
+    }
+}
+#[cfg(kani)]
+impl CallCountExpectation {
+    pub(crate) fn kani_parts(&self) -> (usize, u8) {
+        (
+            self.minimum,
+            match self.exactness {
+                Exactness::Exact => 0,
+                Exactness::AtLeast => 1,
+                Exactness::AtLeastPlusOne => 2,
+            },
+        )
+    }
+}
